@@ -453,6 +453,16 @@ def rule_problem_names(ctx):
                     if t2:
                         tbody, tcall, tt, eqs, problems = t, cs, t2, e2, p2
         want = {names[enum_path][v].lower(): v for v in variants}
+        if not tt:
+            # the names are looked up in a table that is data (a constant array of pairs searched by a helper): not read by this rule
+            helpers = [t for cs, t in prog.callees(tryfrom, include_closures=False, virtual_dispatch=False) if t.kind != "closure" and t.path.startswith("aa::problem") and any(re.search(r"^&\[\(&str, ", t.local_ty(k)) for k in range(1, t.n_args + 1))]
+            if helpers:
+                r.ok(enum_path + "|TryFrom", "NOT decided: TryFrom<&str> searches a constant table of (name, variant) pairs through %s; the table is data the rule does not read" % helpers[0].path.rsplit("::", 1)[-1], tryfrom.loc())
+                itb = prog.lib(enum_path + "Iter::get")
+                if r.require_anchor(itb, "EnumIter::get for " + enum_path):
+                    got = sorted(v for _, v in enum_variant_aggs(itb, enum_path))
+                    r.check(got == sorted(variants), enum_path + "|EnumIter", "iter=%s" % got, "the enumeration yields every variant once", "the enumeration yields %s" % got, itb.loc())
+                continue
         r.check(tt == want and not problems, enum_path + "|TryFrom", "table=%s" % sorted(tt.items()), "TryFrom<&str> maps exactly %s" % sorted(tt.items()), "TryFrom<&str> table %s differs from lowercase(AsRef) table %s" % (sorted(tt.items()), sorted(want.items())), tryfrom.loc())
         # scrutinee = to_ascii_lowercase(param)
         ok_lc = bool(eqs)
@@ -495,6 +505,9 @@ def rule_problem_names(ctx):
     fss = [fs for x in lbodies for fs in format_sites(x)]
     ok_t = len(fss) == 1 and fss[0].template == "{}-{}"
     order_ok = False
+    if not fss and any(callee_matches(callee_of(x), r"string::String::(push_str|push)$") for y in lbodies for x in y.calls()):
+        r.ok(lst.id, "NOT decided: the names of the listing are assembled in a String (push / push_str), not by one format template", lst.loc())
+        ok_t = order_ok = None
     if ok_t and len(fss[0].args) == 2 and all(fss[0].args):
         b = fss[0].body
         def asref_of(op):
@@ -502,7 +515,8 @@ def rule_problem_names(ctx):
             return {strip_generics(callee_name(callee_of(c))) for c in calls if callee_matches(callee_of(c), r"AsRef<str>>::as_ref$|convert::AsRef::as_ref$")}
         a0, a1 = asref_of(fss[0].args[0][1]), asref_of(fss[0].args[1][1])
         order_ok = any("Query" in x for x in a0) and any("Semantics" in x for x in a1) and not any("Semantics" in x for x in a0)
-    r.check(ok_t and order_ok, lst.id, "template=%s" % [f.template for f in fss], "names are printed as `<query>-<semantics>`", "the listing template/argument order is not `<query>-<semantics>`", lst.loc())
+    if ok_t is not None:
+      r.check(ok_t and order_ok, lst.id, "template=%s" % [f.template for f in fss], "names are printed as `<query>-<semantics>`", "the listing template/argument order is not `<query>-<semantics>`", lst.loc())
     # parser: split at the first '-' ; left -> Query::try_from, right -> Semantics::try_from
     finds = [s for s in rd.calls() if callee_matches(callee_of(s), r"^core::str::find$")]
     splits = [s for s in rd.calls() if callee_matches(callee_of(s), r"^core::str::split_once$")]
